@@ -18,8 +18,9 @@ def _assert_repo() -> None:
     import aiomysensors
 
     path = os.path.realpath(aiomysensors.__file__)
-    if not path.startswith("/repo/src/"):
-        raise core.HarnessError(f"aiomysensors imported from {path}, expected /repo/src")
+    want = os.path.realpath(os.environ.get("VERIF_REPO_SRC", "/repo/src")) + "/"
+    if not path.startswith(want):
+        raise core.HarnessError(f"aiomysensors imported from {path}, expected {want}")
 
 
 def confirm(mod, v: core.Violation) -> bool:
